@@ -1374,7 +1374,7 @@ class Engine:
                 self._havoc_cell(a)
         ev = self.event("call", str(name), recv, args, kwargs, node, res)
         may_raise = self.contract.callee_may_raise(name)
-        if may_raise and (self.exc_stack or self.contract.has_xposts() or self.contract.track_raises):
+        if may_raise and not self._assume_safety and (self.exc_stack or self.contract.has_xposts() or self.contract.track_raises):
             idx = self.decide([None, None])
             if idx == 1:
                 self.event("raise-from", str(name), recv, args, kwargs, node, None)
